@@ -28,6 +28,7 @@ type Mock struct {
 	cond    *sync.Cond
 	pending []*Pending
 	seq     int
+	Bodies  []string // byte-level path: "wirebody <method> <what was encoded>\t<hex>" lines
 	// Auto answers a call without parking it when it returns true (used for close and for free-running phases).
 	Auto func(c kafka.VerifCoordCall) (kafka.VerifCoordReply, bool)
 }
@@ -100,6 +101,16 @@ func Offsets(m map[string]map[int]int64) string {
 }
 
 func (m *Mock) Handle(c kafka.VerifCoordCall) kafka.VerifCoordReply {
+	if c.Method == "wirebody" { // byte-level path: the response body the peer is about to write
+		m.mu.Lock()
+		d := c.Desc
+		if d == "" {
+			d = "-"
+		}
+		m.Bodies = append(m.Bodies, fmt.Sprintf("wirebody %s %s\t%x", c.Of, d, c.Body))
+		m.mu.Unlock()
+		return kafka.VerifCoordReply{}
+	}
 	if c.Method == "outcome" { // byte-level path: what the library's real Conn call concluded
 		kafka.VerifGroupEmit("M.Wire", c.Conn, c.Of, ClassOfHook(c.Outcome))
 		return kafka.VerifCoordReply{}
@@ -173,6 +184,15 @@ func Committed(cs []kafka.VerifGroupOffset) string {
 		return "-"
 	}
 	return strings.Join(parts, ",")
+}
+
+// TakeBodies returns and clears the recorded response bodies.
+func (m *Mock) TakeBodies() []string {
+	m.mu.Lock()
+	defer m.mu.Unlock()
+	b := m.Bodies
+	m.Bodies = nil
+	return b
 }
 
 // Snapshot returns the parked calls (oldest first).
